@@ -243,6 +243,7 @@ class FileStorage(
         elif stop is not None:
             raise ValueError("time-travel only supported in read-only mode")
 
+        time_travel = stop is not None
         if stop is None:
             stop = b'\377' * 8
 
@@ -299,7 +300,9 @@ class FileStorage(
             self._file.write(packed_version)
 
         self._files = FilePool(self._file_name)
-        r = self._restore_index()
+        # The saved index describes the whole file: a time-travel
+        # open must scan the file up to the requested transaction.
+        r = None if time_travel else self._restore_index()
         if r is not None:
             self._used_index = 1  # Marker for testing
             index, start, ltid = r
